@@ -1639,3 +1639,366 @@ PROPERTY RenameRewritesAll
 
 
 REGISTRY.update({'C11': c11})
+
+
+def c05(tier, replay=None):
+    import random
+    from . import djsetup
+    djsetup.setup()
+    from .absmodel import ALT_NAMES, norm_mutation, short
+    from .common import seed
+    from .engines import sigpair
+    from .tlc import run_tlc, require_ok, write_cfg
+    report = Report('C05', tier)
+    recs = []
+    for edits, start in ([(2, 1), (2, 2)] if tier == 'quick' else [(3, 1), (3, 2)]):
+        cfg = write_cfg('MC_Hint_%d_%d.cfg' % (edits, start), '''
+SPECIFICATION Spec
+CONSTANTS
+  MaxEdits = %d
+  StartId = %d
+  EmitRecords = TRUE
+CONSTRAINT Constraint
+''' % (edits, start))
+        res = require_ok(run_tlc('Hint', cfg, workers=16, timeout=3000), 'Hint.tla')
+        report.add_tlc('Hint edits<=%d start=%d' % (edits, start), res.stats())
+        seen = set()
+        for r in res.records:
+            key = json_key(r['new'], r['start'])
+            if key not in seen:
+                seen.add(key)
+                recs.append(r)
+    total = len(recs)
+    rng = random.Random(seed() * 31337 + 1)
+    limit = 4000 if tier == 'quick' else 100000
+    if len(recs) > limit:
+        hot = [r for r in recs if r['viol']]
+        cold = [r for r in recs if not r['viol']]
+        rng.shuffle(cold)
+        recs = hot[:limit // 2] + cold[:limit - min(len(hot), limit // 2)]
+    nontrivial = set()
+    for i, rec in enumerate(recs):
+        names = ALT_NAMES[i % 2]
+        report.coverage['evaluations'] += 1
+        obs = sigpair.observe(rec, names)
+        if obs.get('diff_error'):
+            report.notes.append('diff error: %s' % obs['diff_error'][-300:])
+            report.fail({'class': 'diff-raises'}, {'old': rec['old'], 'new': rec['new'],
+                                                   'error': obs['diff_error']})
+            continue
+        report.coverage['traces_validated_against_impl'] += 1
+        nontrivial.add(json_key(rec['new'], rec['start']))
+        spec_hint = [short(norm_mutation(m)) for m in rec['hint']]
+        detail = {'start': rec['start'], 'new': rec['new'], 'hint': obs.get('hint_str'),
+                  'spec_hint': spec_hint, 'diff': obs.get('diff_str'),
+                  'residual': obs.get('residual'), 'sim_error': obs.get('sim_error')}
+        predicted = 'HintCloses' in rec['viol']
+        if not obs['sim_ok']:
+            report.fail({'class': 'hint-simulation-fails', 'predicted_by_spec': predicted}, detail)
+        elif not obs['residual_empty']:
+            kinds = sorted(set(
+                'related_model' if "'related_model'" in line else
+                'meta' if 'Meta property' in line else
+                'field' if 'Property' in line or 'Field' in line else 'other'
+                for line in '\n'.join(obs['residual']).split('\n') if line.startswith('    ')))
+            report.fail({'class': 'hint-leaves-residual', 'predicted_by_spec': predicted,
+                         'kinds': kinds}, detail)
+        if not obs['self_diff_empty']:
+            report.fail({'class': 'self-diff-not-empty'}, detail)
+        if not obs['clone_ok']:
+            report.fail({'class': 'clone-differs'}, detail)
+        both_empty = obs['diff_empty'] and obs['rdiff_empty']
+        if obs['eq'] != both_empty:
+            report.fail({'class': 'eq-vs-diff-mismatch', 'eq': obs['eq'],
+                         'predicted_by_spec': 'EqIffDiffEmptyBothWays' in rec['viol']}, detail)
+        # binding
+        want = sorted(spec_hint)
+        have = sorted(short(norm_mutation(m)) for m in obs.get('hint', []))
+        if want != have:
+            report.spec_drift('hint differs: spec %s code %s' % (want, have))
+        elif predicted and obs['sim_ok'] and obs.get('residual_empty'):
+            report.spec_drift('Hint.tla predicts a residual for %s, code closes it' % have)
+        report.sample({'hint': obs.get('hint_str'), 'residual_empty': obs.get('residual_empty'),
+                       'eq': obs.get('eq'), 'diff_empty_both_ways': both_empty})
+    report.coverage['distinct_nontrivial'] = len(nontrivial)
+    report.coverage['exhaustive'] = len(recs) == total
+    report.coverage['rule'] = (
+        'TLC enumerates every pair (stored, edited) reachable by the developer-edit actions of Hint.tla '
+        '(add / delete / retype field, toggle null / db_index / unique, max_length, explicit defaults, '
+        'unique_together incl. reordering, Meta.indexes incl. reordering, delete model, retarget relation) and '
+        'evaluates the transcribed diff and hint; %d of %d distinct pairs were rebuilt as real ProjectSignatures '
+        'by direct construction and pushed through the real Diff, Diff.evolution(), simulate() and __eq__. '
+        'Distinct = distinct edited signature.' % (len(recs), total))
+    report.assumptions += ['signatures built by direct construction (explicit defaults are only expressible that way)',
+                           'placeholders for required initial values are kept as they are (they satisfy the simulation)']
+    return report.finish()
+
+
+REGISTRY.update({'C05': c05})
+
+
+# ---------------------------------------------------------------------------
+# C06 / C13: Codec.tla
+
+def _codec_records(report, tier):
+    from .tlc import run_tlc, require_ok, write_cfg
+    # binding of the dispatch constant: does the code read back a stored Q as a Q?
+    from django.db.models import Q
+    from collections import OrderedDict as OD
+    from django_evolution.serialization import (deserialize_from_signature,
+                                                serialize_to_signature)
+    import json as _json
+    probe = deserialize_from_signature(_json.loads(_json.dumps(serialize_to_signature(Q(a=1))),
+                                                   object_pairs_hook=OD))
+    by_isinstance = isinstance(probe, Q)
+    report.notes.append('binding: DictDispatchByIsinstance = %s (probed)' % by_isinstance)
+    from django_evolution.serialization import serialize_to_python
+    try:
+        repaired = serialize_to_python(Q(Q(a=1) | Q(b=2))) is not None
+    except Exception:
+        repaired = False
+    report.notes.append('binding: RendererRepaired = %s (probed)' % repaired)
+    cfg = write_cfg('MC_Codec.cfg', '''
+SPECIFICATION Spec
+CONSTANTS
+  EmitRecords = TRUE
+  DictDispatchByIsinstance = %s
+  RendererRepaired = %s
+CONSTRAINT Constraint
+''' % ('TRUE' if by_isinstance else 'FALSE', 'TRUE' if repaired else 'FALSE'))
+    res = require_ok(run_tlc('Codec', cfg, workers=8, timeout=3000), 'Codec.tla')
+    report.add_tlc('Codec (all values of the grammar)', res.stats())
+    seen = set()
+    out = []
+    for r in res.records:
+        key = json_key(r['val'], 0)
+        if key not in seen:
+            seen.add(key)
+            out.append(r)
+    return out
+
+
+def _codec_pick(recs, tier, rng, clauses):
+    limit = 2500 if tier == 'quick' else 10 ** 9
+    if len(recs) <= limit:
+        return recs
+    hot = [r for r in recs if set(r['viol']) & clauses]
+    cold = [r for r in recs if not (set(r['viol']) & clauses)]
+    rng.shuffle(hot)
+    rng.shuffle(cold)
+    small = [r for r in recs if r['val']['t'] not in ('q', 'comb')]
+    return small + hot[:limit // 3] + cold[:limit - limit // 3]
+
+
+def c06(tier, replay=None):
+    import random
+    from . import djsetup
+    djsetup.setup()
+    from .common import seed
+    from .engines import codec
+    from . import rig as R
+    from .absmodel import DEFAULT_NAMES
+    report = Report('C06', tier)
+    recs = _codec_records(report, tier)
+    rng = random.Random(seed() * 2654435761 % (2 ** 31) + 7)
+    chosen = _codec_pick(recs, tier, rng, {'ReadBackEqual', 'ReadBackEqualModuloTuples', 'ReserialiseSameText'})
+    # a database with the version table (real fresh install of an empty project)
+    rig = R.Rig(DEFAULT_NAMES)
+    rig.prepare(_start_sig(3), nrows=0)
+    rig.fresh_copy('c06')
+    nontrivial = set()
+    for i, rec in enumerate(chosen):
+        v = rec['val']
+        pos = codec.position_of(v)
+        strs = {'s': codec.PALETTE[i % len(codec.PALETTE)]}
+        report.coverage['evaluations'] += 1
+        try:
+            value = codec.concretise(v, strs)
+        except Exception as e:
+            report.notes.append('cannot concretise %s: %s' % (v['t'], e))
+            continue
+        through_db = (i % 4 == 0) or tier == 'thorough'
+        obs = codec.storage_round_trip(value, pos, through_db)
+        report.coverage['traces_validated_against_impl'] += 1
+        if v['t'] in ('q', 'comb', 'list', 'tuple', 'dict', 'enum', 'value'):
+            nontrivial.add(json_key(v, 0))
+        detail = {'value': repr(value)[:300], 'position': pos, 'through_version_table': through_db,
+                  'observed': {k: obs[k] for k in obs if k != 'tb'}, 'spec_viol': rec['viol']}
+        modulo_ok = 'ReadBackEqualModuloTuples' not in rec['viol']
+        tuple_only = ('ReadBackEqual' in rec['viol']) and modulo_ok
+        fpx = {'position': pos, 'value_type': v['t'], 'tuple_becomes_list': tuple_only,
+               'predicted_by_spec': not modulo_ok}
+        if obs.get('write_error'):
+            report.fail(dict(fpx, **{'class': 'cannot-serialize'}), detail)
+        elif obs.get('read_error'):
+            report.fail(dict(fpx, **{'class': 'cannot-deserialize'}), detail)
+        elif obs.get('compare_error'):
+            report.fail(dict(fpx, **{'class': 'compare-raises'}), detail)
+        else:
+            if not obs['eq']:
+                report.fail(dict(fpx, **{'class': 'read-back-not-equal'}), detail)
+            if not obs['diff_empty']:
+                report.fail(dict(fpx, **{'class': 'read-back-diff-not-empty'}), detail)
+            if not obs['same_text']:
+                report.fail(dict(fpx, **{'class': 'reserialises-differently'}), detail)
+            if obs['eq'] and not modulo_ok:
+                report.spec_drift('Codec.tla predicts a read-back difference for %s' % repr(value)[:80])
+        if pos == 'field_attr':
+            o1 = codec.v1_round_trip(value, pos)
+            if o1.get('error') or not o1.get('diff_empty'):
+                report.fail({'class': 'v1-round-trip-differs', 'value_type': v['t']},
+                            dict(detail, v1=o1))
+        report.sample({'value': repr(value)[:120], 'position': pos, 'eq': obs.get('eq'),
+                       'diff_empty': obs.get('diff_empty'), 'same_text': obs.get('same_text')})
+    R.close_db()
+    report.coverage['distinct_nontrivial'] = len(nontrivial)
+    report.coverage['exhaustive'] = len(chosen) == len(recs)
+    report.coverage['rule'] = (
+        'TLC enumerates every value of Codec.tla\'s grammar (primitives, lists/tuples/dicts, Q trees with '
+        'AND/OR/XOR, negation and nesting to depth 2, F, Value, combined expressions to depth 2, Deferrable) '
+        'and evaluates the transcribed storage pipeline (serialize, json dump/load with ordered dicts, '
+        'deserialize): %d values, %d of them placed into a real project signature (index condition / '
+        'expressions / include, constraint check / deferrable / attrs, field attribute) and pushed through '
+        'serialize()+json+deserialize() and through Version.save()/reload on SQLite, with a palette of '
+        'strings (quotes, backslash, unicode, percent). Non-trivial = structured values.'
+        % (len(recs), len(chosen)))
+    report.assumptions += ['byte-level string escaping is exercised through the palette only']
+    return report.finish()
+
+
+def c13(tier, replay=None):
+    import random
+    from . import djsetup
+    djsetup.setup()
+    from .common import seed
+    from .engines import codec
+    from . import rig as R
+    from .absmodel import DEFAULT_NAMES
+    from django_evolution.evolve import Evolver
+    report = Report('C13', tier)
+    recs = _codec_records(report, tier)
+    rng = random.Random(seed() * 40503 + 11)
+    chosen = _codec_pick(recs, tier, rng, {'RenderTotal', 'RenderParsesBack'})
+    rig = R.Rig(DEFAULT_NAMES)
+    rig.prepare(_start_sig(3), nrows=0)
+    nontrivial = set()
+    level2 = 0
+    for i, rec in enumerate(chosen):
+        v = rec['val']
+        pos = codec.position_of(v)
+        strs = {'s': codec.PALETTE[i % len(codec.PALETTE)]}
+        report.coverage['evaluations'] += 1
+        try:
+            value = codec.concretise(v, strs)
+        except Exception as e:
+            continue
+        if codec.has_empty_q(value) and v.get('items'):
+            continue        # an empty Q() inside a condition is not a supported value (FullResultSet)
+        if v['t'] in ('q', 'comb', 'list', 'tuple', 'dict', 'enum', 'value'):
+            nontrivial.add(json_key(v, 0))
+        o = codec.eval_rendered(value)
+        report.coverage['traces_validated_against_impl'] += 1
+        predicted_err = 'RenderTotal' in rec['viol']
+        predicted_prec = 'RenderParsesBack' in rec['viol']
+        detail = {'value': repr(value)[:300], 'text': o.get('text'), 'observed': o,
+                  'spec_render': rec['render'], 'spec_viol': rec['viol']}
+        fpx = {'value_type': v['t']}
+        if v['t'] == 'q':
+            fpx['shape'] = ('xor' if '"XOR"' in json_key(v, 0) else '') + \
+                ('single-nested-q' if any(len(q.get('items') or []) == 1 and (q['items'][0]['t'] == 'q')
+                                           for q in _walk_q(v)) else '')
+        if o.get('render_error'):
+            report.fail(dict(fpx, **{'class': 'render-raises', 'predicted_by_spec': predicted_err}), detail)
+        elif o.get('load_error'):
+            report.fail(dict(fpx, **{'class': 'text-not-loadable', 'predicted_by_spec': False}), detail)
+        elif o.get('compare_error'):
+            report.fail(dict(fpx, **{'class': 'compare-raises'}), detail)
+        elif not o['same']:
+            report.fail(dict(fpx, **{'class': 'text-means-something-else',
+                                     'predicted_by_spec': predicted_prec}), detail)
+        else:
+            if predicted_err or predicted_prec:
+                report.spec_drift('Codec.tla predicts %s for %s, code renders %s'
+                                  % (rec['viol'], repr(value)[:60], o.get('text')))
+        # level 2: through a real task, get_evolution_content(), exec, same effect
+        # Q trees that Python's own & | ^ operators would flatten cannot be written as
+        # operator text without flattening: for those only the meaning is compared
+        strict = o.get('strict_same', o.get('same'))
+        if (not o.get('render_error') and o.get('same') and strict
+                and pos in ('condition', 'expression', 'deferrable', 'field_attr')
+                and (i % 7 == 0 or tier == 'thorough') and v['t'] != 'none'):
+            muts = codec.mutation_for(value, pos)
+            for m in muts or []:
+                level2 += 1
+                rig.restore_models()
+                rig.fresh_copy('c13')
+                R.reset_globals()
+                o2 = codec.render_and_load([m], rig.app_module(), Evolver)
+                d2 = {'mutation': o2.get('hints'), 'text': o2.get('text'),
+                      'observed': {k: o2[k] for k in o2 if k not in ('loaded', 'tb', 'text')}}
+                kind = type(m).__name__ + (':' + m.prop_name if hasattr(m, 'prop_name') else '')
+                if o2.get('render_error') or o2.get('content_error'):
+                    report.fail({'class': 'evolution-content-raises', 'mutation': kind,
+                                 'value_type': v['t']}, d2)
+                elif o2.get('load_error'):
+                    report.fail({'class': 'evolution-text-not-loadable', 'mutation': kind,
+                                 'error': o2['load_error'].split(':')[0]}, d2)
+                else:
+                    try:
+                        rig.fresh_copy('c13b')
+                        same_sig, same_sql, q1, q2 = codec.effects_equal(rig, [m], o2['loaded'])
+                        if not same_sig or not same_sql:
+                            report.fail({'class': 'loaded-evolution-differs', 'mutation': kind,
+                                         'same_sig': same_sig, 'same_sql': same_sql},
+                                        dict(d2, sql=[q1, q2]))
+                    except Exception as e:
+                        report.notes.append('effect comparison failed for %s: %s' % (kind, e))
+                R.close_db()
+        report.sample({'value': repr(value)[:100], 'text': o.get('text'), 'same': o.get('same')})
+    _c13_placeholder(report, rig)
+    R.close_db()
+    report.coverage['distinct_nontrivial'] = len(nontrivial)
+    report.coverage['exhaustive'] = len(chosen) == len(recs)
+    report.notes.append('%d mutations taken through get_evolution_content()+exec' % level2)
+    report.coverage['rule'] = (
+        'TLC enumerates every value of Codec.tla\'s grammar and evaluates the transcribed renderer '
+        '(error sinks for the Q case analysis, operator precedence of combined expressions): %d values, %d '
+        'replayed: serialize_to_python() text evaluated by Python must give the value back; a share of them '
+        'is carried by real mutations (ChangeMeta indexes/constraints, AddField) through a real task\'s '
+        'get_evolution_content(), exec()-ed, and the loaded mutations compared by simulated signature and '
+        'generated SQL. Non-trivial = structured values.' % (len(recs), len(chosen)))
+    report.assumptions += ['the Python interpreter is the oracle for what rendered text means']
+    return report.finish()
+
+
+def _walk_q(v):
+    out = []
+    if v['t'] == 'q':
+        out.append(v)
+    for x in v.get('items') or []:
+        out += _walk_q(x)
+    return out
+
+
+def _c13_placeholder(report, rig):
+    """Values that need user input are rendered as a placeholder that refuses to run."""
+    from django.db import models
+    from django_evolution.mutations import AddField
+    from django_evolution.placeholders import NullFieldInitialCallback
+    m = AddField('Ab', 'needs_value', models.IntegerField,
+                 initial=NullFieldInitialCallback('vapp', 'Ab', 'needs_value'))
+    text = str(m)
+    report.coverage['evaluations'] += 1
+    if '<<' not in text or 'USER VALUE REQUIRED' not in text:
+        report.fail({'class': 'placeholder-not-explicit'}, {'text': text})
+        return
+    try:
+        exec('from django.db import models\nfrom django_evolution.mutations import AddField\nx = %s' % text, {})
+        report.fail({'class': 'placeholder-text-loads'}, {'text': text})
+    except SyntaxError:
+        pass
+    except Exception as e:
+        pass
+
+
+REGISTRY.update({'C06': c06, 'C13': c13})
